@@ -7,6 +7,7 @@ import (
 	"io"
 	"io/fs"
 	"log/slog"
+	"math"
 	"os"
 	"path/filepath"
 
@@ -227,6 +228,12 @@ func (h *Handler) HandleReadFile(ctx *Context, limit uint32, offset uint64, wr s
 		return fmt.Errorf("no file opened")
 	}
 
+	// offset is unsigned on the wire: a range that does not fit a signed file offset lies beyond the end of any file
+	if offset > math.MaxInt64-uint64(limit) {
+		wr.WriteHeader(0)
+		return nil
+	}
+
 	if _, err := ctx.State.ROFile.Seek(int64(offset), io.SeekStart); err != nil {
 		return fmt.Errorf("seek failed: %w", err)
 	}
@@ -250,6 +257,15 @@ func (h *Handler) HandleReadFileCritical(ctx *Context, limit uint32, offset uint
 
 	if ctx.State.ROFile == nil {
 		return fmt.Errorf("no file opened")
+	}
+
+	// offset is unsigned on the wire: a range that does not fit a signed file offset lies beyond the end of any file
+	if offset > math.MaxInt64-uint64(limit) {
+		if limit == 0 {
+			return nil
+		}
+
+		return fmt.Errorf("offset %d is beyond the end of file", offset)
 	}
 
 	if _, err := ctx.State.ROFile.Seek(int64(offset), io.SeekStart); err != nil {
